@@ -114,6 +114,10 @@ static void gen(Emitter &em, const Options &opt) {
                 ++n;
                 // the ST::string form gets every max; the others the unlimited one and one more by rotation
                 for (size_t mi = 0; mi < maxes.size(); ++mi) {
+                    // an empty separator with unlimited max_splits is the one shape that spun before the repair:
+                    // kept to the corpus lines above, the sweep uses bounded max for it (a regression then shows
+                    // as wrong pieces at once instead of one time-out per case)
+                    if (sp.empty() && mi == 4) continue;
                     bool rot = mi == n % 4;
                     std::string tail = " ci=" + u(ci) + " max=" + maxes[mi] + " sep=" + hp + " s=" + hs;
                     if (thorough || mi == 4 || rot || ci == 0) emit("sp.split form=str" + tail);
@@ -204,7 +208,7 @@ static void gen(Emitter &em, const Options &opt) {
 // still caught (an explicit --timeout on the command line wins).
 int main(int argc, char **argv) {
     std::vector<char *> args; args.push_back(argv[0]);
-    static char opt[] = "--timeout", val[] = "30";
+    static char opt[] = "--timeout", val[] = "10";
     args.push_back(opt); args.push_back(val);
     for (int i = 1; i < argc; ++i) args.push_back(argv[i]);
     return run_main((int)args.size(), args.data(), gen, exec_case);
